@@ -307,6 +307,7 @@ def oracle (h : Hdr) (o : Op) (status : String) (queue : List Nat) (ms : Nat) (c
   let c := cfgOf h o (subIdOf status cs)
   if status = "toomany" then some s!"the interaction does not end: {cs.length} messages and still MoreChunks"
   else if !answerable c h o queue ms then none   -- an error status / an event that fits no message: the device may give up
+  else if o.report && decide (c.limit < c.hdr + 2 + h.ke) then none   -- not even the priming of an empty list fits
   else if status.startsWith "status:" then none   -- the request was refused (not a report)
   else if status.startsWith "none:" then
     -- no report at all: right only when nothing is to be reported
@@ -344,6 +345,15 @@ def oracle (h : Hdr) (o : Op) (status : String) (queue : List Nat) (ms : Nat) (c
                 some s!"the reported events {nums} differ from the selected events {expectedEvents o queue}"
               else none
 
+/-- the subscribe request of an `sr` op as the device sees it while priming: empty values, an empty
+event queue -/
+def zeroItem : ReqItem → ReqItem
+  | .s ep a _ => .s ep a 0
+  | .l ep k _ => .l ep k []
+  | .u => .u
+
+def primingOf (o : Op) : Op := { o with report := false, events := [], items := o.items.map zeroItem }
+
 structure St where
   h : Hdr := {}
 
@@ -376,6 +386,9 @@ def step (st : St) (line : String) : St × String :=
       | none =>
         if status.startsWith "status:" then (st, "ok") else
         let c := cfgOf st.h o (subIdOf status cs)
+        -- a report presupposes the priming: if the device cannot prime, the subscription is not established
+        let primed := !o.report || (match respond c (toReq st.h (primingOf o) [] 0) with | .ok _ => true | .error _ => false)
+        if !primed then (if status = "hang" then (st, "ok") else (st, "DIS priming fails")) else
         match respond c (toReq st.h o queue ms) with
         | .ok [] => if status.startsWith "none:" then (st, "ok") else (st, "DIS ok | (no message)")
         | .ok ms =>
